@@ -72,7 +72,8 @@ class RequestHandlerBase(MethodView):
         """
         try:
             token = params['csrf_token']
-        except KeyError:
+        except (KeyError, TypeError, IndexError):
+            # a missing token, or a JSON body that is not an object
             raise CsrfFailureException('csrf_token not present')
         CsrfProtection.check(service, token)
 
